@@ -58,6 +58,11 @@ var gfRealPkgs = map[string]bool{"pkg/digest": true, "pkg/redis": true}
 type gfImporter struct{}
 
 func (gfImporter) Import(path string) (*types.Package, error) {
+	if gfStdReal[path] { // session 5: packages of the standard library whose constants are needed (gofn_s5.go)
+		if p, err := gfStdImport(path); err == nil {
+			return p, nil
+		}
+	}
 	if gfModule != "" && strings.HasPrefix(path, gfModule+"/") {
 		rel := strings.TrimPrefix(path, gfModule+"/")
 		if gfRealPkgs[rel] {
@@ -79,10 +84,7 @@ func (gfImporter) Import(path string) (*types.Package, error) {
 			}
 		}
 	}
-	base := path
-	if i := strings.LastIndex(path, "/"); i >= 0 {
-		base = path[i+1:]
-	}
+	base := gfImportBase(path) // gofn_c13.go: yaml.v3 -> yaml, x/v2 -> x
 	p := types.NewPackage(path, base)
 	p.MarkComplete()
 	gfFake[path] = true
@@ -147,10 +149,7 @@ func gfLoad(rel string) *gfPackage {
 	for _, file := range p.files {
 		for _, im := range file.Imports {
 			path := strings.Trim(im.Path.Value, "\"")
-			name := path
-			if i := strings.LastIndex(path, "/"); i >= 0 {
-				name = path[i+1:]
-			}
+			name := gfImportBase(path)
 			if im.Name != nil {
 				name = im.Name.Name
 			}
